@@ -873,6 +873,18 @@ class VmemCheck(SeqCheck):
             return None
         return os.path.join(bindir, 'seqrun')
 
+def c17_extra(ctx, seqrun, stats, divs):
+    # feature set {vmem, vmem + async}: the async wrappers on the vmem build (futures of slice operations hand out ONE mirrored slice)
+    bindir, alog = ctx.build_harness(('asyncrun',), features='vmem')
+    if bindir is None:
+        ctx.violation('the async harness does not build against the current /repo tree with --features vmem (tie broken)', '## cargo build failed\n' + alog[-4000:], no_input=True)
+    else:
+        n = 12 if ctx.tier == 'quick' else 150
+        astats, d3 = seqsuite.run(ctx, os.path.join(bindir, 'asyncrun'), [('varand', ['varand', ctx.seed, n, 20, 60])], mode='async')
+        divs += d3; stats.steps += astats.steps; stats.histories += astats.histories; stats.distinct |= astats.distinct
+        ctx.notes['vmem_async_suite'] = astats.summary()
+    c17_pagemul(ctx, seqrun, stats, divs)
+
 def c17_pagemul(ctx, seqrun, stats, divs):
     """requested minimum -> length: `get_page_size_mul(n)` and the length of `default(n)` / `new_zeroed(n)` buffers of the vmem build
     against the Model's `page_mul` evaluated by coqc, at the page boundaries and at seeded random minimums"""
@@ -933,4 +945,4 @@ CHECKS['C17'] = VmemCheck('C17', lambda d: True,
     'Theorems (Coq): the call sequence of vmem_helper::new regenerated from the source builds two views of one shared object at offset 0 that holds the supplied data (C17_source_closed, C17_mirror), '
     'page rounding is the least multiple (C17_round), a contiguous window resolves to the ring slots (C17_slice), the release drops items once before unmapping both halves. '
     'Tie: the whole sequential correspondence on a --features vmem build (1-3 pages, element sizes 4/8/16/24 bytes, histories positioned at the physical end: single mirrored slices, '
-    'initial contents, ledger, /proc/self/maps after release).', extra=c17_pagemul, propfiles=['Props/C17.v', 'Props/DTieV.v'])
+    'initial contents, ledger, /proc/self/maps after release; async histories on the vmem + async build).', extra=c17_extra, propfiles=['Props/C17.v', 'Props/DTieV.v'])
